@@ -3,6 +3,7 @@
 //!   plv check <ID> [--tier quick|thorough] [--seed N]
 //!   plv replay <path>
 
+mod bulk;
 mod checks_c05;
 mod checks_codec;
 mod checks_conc;
@@ -93,6 +94,11 @@ fn run_check(id: &str, tier: Tier, seed: u64) -> i32 {
                 ),
             };
             run_seq(&chk, &mut rep, n);
+            if id != "C15" {
+                // scale tier with sparse observation (see bulk.rs)
+                let prop: &'static str = chk.prop;
+                bulk::run(&mut rep, prop, budget(tier, 32, 1_200));
+            }
             let seq_rule = format!("{}{}", RULE_HSEQ, rule);
             if id == "C02" {
                 checks_seq::match_result_incremental(&mut rep, budget(tier, 50_000, 5_000_000));
@@ -153,6 +159,7 @@ fn replay(path: &str) -> i32 {
             };
             checks_seq::replay_seq(&chk, r["case"].as_u64().unwrap(), r["seed"].as_u64().unwrap())
         }
+        Some("bulk") => bulk::replay(r["property"].as_str().unwrap_or(""), r["seed"].as_u64().unwrap(), r["case"].as_u64().unwrap()),
         other => {
             println!("engine {:?}: the replay file itself holds the witness:\n{}", other, serde_json::to_string_pretty(r).unwrap());
             0
